@@ -393,6 +393,50 @@ def api_c_mode_text(mi, si):
     return {"ddl": ddl, "mode": ALL_MODES[mi], "common_view_in_mode": got, "common_view_default": base, "reproduced": not _covers(got, base)}
 
 
+# ------------------------------------------------------------------ C17: sequences next to each other ----------
+SEQ_NAMES = ["q", "Q", '"q"', "s.q", "S.Q", 's."Q"', "[q]", "s.[q]", "qq"]
+SEQ_OPTS = ["START 1", "INCREMENT BY 2 MINVALUE 0", "NO MAXVALUE CACHE", "MAXVALUE 9223372036854775807 NOORDER", "START WITH -5 CACHE 10 ORDER", ""]
+SEQ_BETWEEN = ["", "CREATE TABLE q (a int);", "CREATE TABLE s.q (increment int, start int);"]
+NSN, NSO, NSB = len(SEQ_NAMES), len(SEQ_OPTS), len(SEQ_BETWEEN)
+SEQ_N1 = env_int("VF_SEQ_N1", -1)
+SEQ_QUICK = env_int("VF_SEQ_QUICK", 0)
+
+
+def _seq_stmt(n, o):
+    return ("CREATE SEQUENCE " + SEQ_NAMES[n] + " " + SEQ_OPTS[o]).strip() + ";"
+
+
+SEQ_ALONE = {(n, o): run(_seq_stmt(n, o)) for n in range(NSN) for o in range(NSO)}
+SEQ_BETWEEN_ALONE = [run(b) if b else [] for b in SEQ_BETWEEN]
+
+
+def c_seq_pair(n1: int, o1: int, n2: int, o2: int, b: int) -> bool:
+    """
+    C17: two CREATE SEQUENCE statements (names that may differ only in letter case, quoting or
+    schema; option sets from the catalogue), optionally with a table of the same name between
+    them: the script yields exactly what each statement yields alone, in order - no option of
+    one sequence shows up in the other or in the table, no entry is merged or dropped.
+
+    pre: 0 <= n1 < NSN and 0 <= n2 < NSN and 0 <= o1 < NSO and 0 <= o2 < NSO and 0 <= b < NSB
+    pre: SEQ_N1 < 0 or n1 == SEQ_N1
+    pre: SEQ_QUICK == 0 or (o2 in (0, 1, 4) and b != 1)
+    post: _
+    """
+    text = "\n".join(x for x in (_seq_stmt(n1, o1), SEQ_BETWEEN[b], _seq_stmt(n2, o2)) if x)
+    return run(text) == SEQ_ALONE[(n1, o1)] + SEQ_BETWEEN_ALONE[b] + SEQ_ALONE[(n2, o2)]
+
+
+def api_c_seq_pair(n1, o1, n2, o2, b):
+    from simple_ddl_parser import DDLParser
+    parts = [x for x in (_seq_stmt(n1, o1), SEQ_BETWEEN[b], _seq_stmt(n2, o2)) if x]
+    text = "\n".join(parts)
+    got = DDLParser(text).run()
+    want = []
+    for x in parts:
+        want += DDLParser(x).run()
+    return {"ddl": text, "got": got, "expected": want, "reproduced": got != want}
+
+
 # ------------------------------------------------------------------ C11 ----------------------
 _CL = json.load(open(os.path.join(CAT, "clauses.json")))
 BODY = _CL["body"]
